@@ -7,6 +7,7 @@ CFG = {'module': 'Dnp3.Props.C14',
               'null_until_confirmed',
               'one_outstanding',
               'read_deferred_not_dropped',
+              'deferred_read_dies_with_session',
               'retries_bounded',
               'series_spacing',
               'unsol_retry_identical'],
